@@ -36,13 +36,14 @@ pub fn world() -> World {
             "for a blank cell only the background (foreground when reversed), underline and strike are observable",
             "images and glyph cells are only generated when the terminal reports a cell pixel size; zero-width characters and wide characters in the last column are outside the domain",
             "images are compared by content (size + pixels), which is what the kitty handler keys on",
+            "a renderer may be replaced by TerminalRenderer::new(term, true) without clear() on the old one (one run in eight while the known finding about it is open): what the old one drew is then 'what the terminal showed before'",
         ],
         rule: "one run = one terminal size, personality and history of ops (Frame, NoFrame, Clear, Recreate with optional resize and garbage, garbage pre-fill) or one scripted run_render session; after every frame whose commands are fully delivered the displayed screen is compared cell for cell with the drawn surface and with a from-scratch render of the same surface on a blank terminal; non-trivial = at least two frames or a clear/recreate/drop/resize happened; distinct = distinct hash of (op kinds, cell kinds drawn, delivery decisions)",
         runs: |_, tier| match tier {
             Tier::Quick => 600_000,
             Tier::Thorough => 30_000_000,
         },
-        features: &["wide-char", "image", "decorated-blank", "sentinel-face", "image-overlap", "shadow-draw", "drop-with-image"],
+        features: &["wide-char", "image", "decorated-blank", "sentinel-face", "image-overlap", "shadow-draw", "drop-with-image", "bare-recreate"],
     }
 }
 
